@@ -162,6 +162,12 @@ Qed.
 Lemma nadd_map_mut {A} (f : A -> op) l : (forall x, nadd (f x) = true) -> forallb nadd (map f l) = true.
 Proof. intros H. induction l; simpl; [reflexivity|]. rewrite H, IHl. reflexivity. Qed.
 
+Lemma nadd_concat cs : Forall (fun c => forallb nadd c = true) cs -> forallb nadd (concat cs) = true.
+Proof. induction 1 as [|c cs Hc _ IH]; simpl; [reflexivity|]. rewrite nadd_app, Hc, IH. reflexivity. Qed.
+
+Lemma nadd_muts (l : list nat) (f : stage -> stage) : Forall (fun c => forallb nadd c = true) (map (fun j => c_mutate j f) l).
+Proof. induction l; simpl; constructor; auto. Qed.
+
 Lemma adds_jump s id i tg c : ADDS id (handle_jump s id i tg c).
 Proof.
   unfold ADDS, handle_jump. destruct (get_stage s i) as [src|]; [|noadd].
@@ -169,12 +175,16 @@ Proof.
   destruct (get_stage s tg) as [tgt|]; [|unfold ok; cbn [h_commits]; noadd].
   destruct (jump_exhausted _ _); [unfold ok; cbn [h_commits]; noadd|].
   unfold ok; cbn [h_commits]. constructor; [|constructor]. left.
-  unfold txn. rewrite !concat_app, !nadd_app.
-  assert (forall (l : list nat) f, forallb nadd (concat (map (fun j => c_mutate j f) l)) = true) as Hm
-    by (intros l f; induction l; simpl; auto).
-  rewrite !Hm. simpl.
-  match goal with |- context [if ?a then [] else _] => destruct a end; [reflexivity|].
-  match goal with |- context [if ?a then _ else _] => destruct a end; reflexivity.
+  unfold txn. apply nadd_concat. repeat (apply Forall_app; split).
+  - match goal with |- Forall _ (flat_map _ ?l) => generalize l end. intros l0.
+    induction l0 as [|j l0 IH]; simpl; [constructor|].
+    constructor; [reflexivity|]. apply Forall_app. split; [apply nadd_muts|exact IH].
+  - apply nadd_muts.
+  - match goal with |- context [if ?a then [] else _] => destruct a end; [constructor|].
+    match goal with |- context [if ?a then _ else _] => destruct a end.
+    + constructor; [reflexivity|apply nadd_muts].
+    + constructor; [reflexivity|constructor].
+  - constructor; [reflexivity|]. apply Forall_app. split; [apply nadd_muts|]. repeat constructor.
 Qed.
 
 (* every commit of every handler: a stage row is created only together with the processed mark of the message
